@@ -177,6 +177,8 @@ def gradient(r, gid, bbox, pal=None, spread=True, allow_focal=True):
         dd = r.uniform(0, 0.5) * rr
         fr = r.uniform(0, 0.3) * rr if r.random() < 0.5 else 0
         foc = f' fx="{f3(cx+dd*math.cos(a))}" fy="{f3(cy+dd*math.sin(a))}"' + (f' fr="{f3(fr)}"' if fr else "")
+        if fr and r.random() < 0.4:
+            foc = f' fr="{f3(fr)}"'  # a focal radius without a displaced focal point (a ring / halo gradient)
     return f'<radialGradient id="{gid}" gradientUnits="{units}" cx="{f3(cx)}" cy="{f3(cy)}" r="{f3(rr)}"{foc}{gt}{sm}>{stops}</radialGradient>', "radial"
 
 
@@ -279,9 +281,18 @@ def svg_source(r, gi=0, pal=None, vb=None, max_shapes=4, gradients=True, groups=
                 else:
                     t2 = f"translate({cxm:.2f} {cym:.2f}) skewX({r.uniform(-25,25):.1f}) translate({-cxm:.2f} {-cym:.2f})"
                 tr = f' transform="{tr0}{t2}"' if r.random() < 0.8 or not tr0 else f' transform="{tr0.strip()}"'
-            out += finish_el(el, fill, op, tr)
+            piece = finish_el(el, fill, op, tr)
+            out += piece
+            if shared is None and "url(#" not in piece and r.random() < 0.12:
+                repeats.append(piece)
+            elif repeats and r.random() < 0.5:
+                # the very same element again, later in z-order (A, B, A): two layers, not one
+                out += repeats.pop()
+                meta["shapes"] += 1
+                meta["verbatim_repeats"] = meta.get("verbatim_repeats", 0) + 1
         return out
 
+    repeats = []
     body = emit(0)
     text = f'<svg xmlns="http://www.w3.org/2000/svg" viewBox="{f3(vbx)} {f3(vby)} {f3(vbw)} {f3(vbh)}"><defs>{"".join(defs)}</defs>{body}</svg>'
     return text, meta
